@@ -77,16 +77,11 @@ theorem bz_hc_ne (hc : BitVec 32) : hc ≠ hc + 1 := by
 
 theorem gate_bz (total : BitVec 32) (acc : Bytes) (blocks : List (BitVec 32 × Bytes)) (sc : BitVec 32) (out : Bytes)
     (h : bzRun total acc blocks sc = some out) :
-    (∀ b ∈ blocks, b.1 = bzBlockCrc b.2) ∧ sc = bzStreamCrc total (blocks.map (·.2)) ∧
-      out = acc ++ (blocks.map (·.2)).flatten := by
+    (∀ b ∈ blocks, b.1 = bzBlockCrc b.2) ∧ out = acc ++ (blocks.map (·.2)).flatten := by
   induction blocks generalizing total acc with
   | nil =>
-    simp only [bzRun] at h
-    split at h
-    · rename_i hs
-      simp only [Option.some.injEq] at h
-      simp [bzStreamCrc, hs, h]
-    · exact absurd h (by simp)
+    simp only [bzRun, Option.some.injEq] at h
+    simp [h]
   | cons b rest ih =>
     obtain ⟨hc, d⟩ := b
     simp only [bzRun] at h
@@ -98,14 +93,25 @@ theorem gate_bz (total : BitVec 32) (acc : Bytes) (blocks : List (BitVec 32 × B
       · exact absurd h (by simp)
     · rename_i heq
       simp only [ne_eq, Decidable.not_not] at heq
-      have ⟨h1, h2, h3⟩ := ih _ _ h
-      refine ⟨?_, ?_, ?_⟩
+      have ⟨h1, h3⟩ := ih _ _ h
+      refine ⟨?_, ?_⟩
       · intro b hb
         rcases List.mem_cons.mp hb with hb | hb
         · subst hb; exact heq.symm
         · exact h1 b hb
-      · simpa [bzStreamCrc] using h2
       · simpa [List.append_assoc] using h3
+
+/-- the stored stream CRC has no influence on the verdict (see `bzRun`) -/
+theorem bz_stream_crc_ignored (total : BitVec 32) (acc : Bytes) (blocks : List (BitVec 32 × Bytes)) (sc sc' : BitVec 32) :
+    bzRun total acc blocks sc = bzRun total acc blocks sc' := by
+  induction blocks generalizing total acc with
+  | nil => rfl
+  | cons b rest ih =>
+    obtain ⟨hc, d⟩ := b
+    simp only [bzRun]
+    split
+    · rfl
+    · exact ih _ _
 
 theorem xz_chunks (chunks : List Bytes) (c : BitVec 32) :
     chunks.foldl (fun c d => crc32A d c) c = crc32A chunks.flatten c := by
@@ -181,5 +187,92 @@ theorem gate_arcfs (env : ArcEnv) (f out : Bytes) (h : arcfsDepack env f = some 
   split at h
   · exact absurd h (by simp)
   · exact gate_arcfsLoop env f out _ _ _ h
+
+/-- entry at `pos` passed its header CRC -/
+def LzxHdrOk (f : Bytes) (pos : Nat) : Prop :=
+  le32 f (pos + 26) = lzxHeaderCrc (slice f pos 31) (slice f (pos + 31) (u8 f (pos + 30)))
+        (slice f (pos + 31 + u8 f (pos + 30)) (u8 f (pos + 14)))
+
+def SelOk (f : Bytes) (mg : LzxMerge) : Prop :=
+  ∀ o s c, mg.sel = some (o, s, c) → ∃ pos, c = le32 f (pos + 22) ∧ LzxHdrOk f pos
+
+theorem lzxGate_eq (out : Bytes) (s : Nat) (h : lzxGate out s = true) : s = (crc32A out 0).toNat := by
+  unfold lzxGate at h; exact beq_iff_eq.mp h
+
+theorem gate_lzxExtract (env : LzxEnv) (f out : Bytes) (dpos csize method : Nat) (mg : LzxMerge)
+    (hs : SelOk f mg) (h : lzxExtract env f dpos csize method mg = some out) :
+    ∃ pos, le32 f (pos + 22) = (crc32A out 0).toNat ∧ LzxHdrOk f pos := by
+  unfold lzxExtract at h
+  split at h
+  · simp at h
+  · rename_i sofs ssize scrc hsel
+    obtain ⟨pos, hc, hh⟩ := hs _ _ _ hsel
+    simp only [] at h
+    repeat' (split at h)
+    all_goals (first
+      | (cases h; exact ⟨pos, hc ▸ lzxGate_eq _ _ (by assumption), hh⟩)
+      | (simp at h))
+
+theorem selOk_empty (f : Bytes) : SelOk f {} := by
+  intro o s c h; simp at h
+
+/-- the selection after `lzx_check_entry` is the old one, none, or this entry's (only if not `bad`) -/
+theorem checkEntry_sel (limit : Nat) (mg : LzxMerge) (bad : Bool) (usize csize method flags dcrc : Nat) :
+    let r := lzxCheckEntry limit mg bad usize csize method flags dcrc
+    r.1.sel = mg.sel ∨ r.1.sel = none ∨ (∃ x, r.1.sel = some (x, usize, dcrc) ∧ bad = false) := by
+  intro r
+  have hr : r = lzxCheckEntry limit mg bad usize csize method flags dcrc := rfl
+  clear_value r
+  unfold lzxCheckEntry at hr
+  simp only [] at hr
+  cases bad <;> simp only [Bool.false_eq_true, if_false, if_true, Bool.not_false, Bool.not_true, Bool.true_and, Bool.false_and] at hr
+  all_goals (repeat' (split at hr))
+  all_goals (subst hr; simp)
+
+theorem selOk_check (f : Bytes) (limit : Nat) (mg : LzxMerge) (bad : Bool) (pos csize method flags : Nat)
+    (hs : SelOk f mg) (hb : bad = false → LzxHdrOk f pos) :
+    SelOk f (lzxCheckEntry limit mg bad (le32 f (pos + 2)) csize method flags (le32 f (pos + 22))).1 := by
+  intro o s c hsel
+  rcases checkEntry_sel limit mg bad (le32 f (pos + 2)) csize method flags (le32 f (pos + 22)) with h | h | ⟨x, h, hbad⟩
+  · rw [h] at hsel; exact hs o s c hsel
+  · rw [h] at hsel; simp at hsel
+  · rw [h] at hsel
+    simp only [Option.some.injEq, Prod.mk.injEq] at hsel
+    exact ⟨pos, hsel.2.2.symm, hb hbad⟩
+
+theorem gate_lzxLoop (env : LzxEnv) (f out : Bytes) : ∀ fuel pos mg, SelOk f mg →
+    lzxLoop env f fuel pos mg = some out → ∃ p, le32 f (p + 22) = (crc32A out 0).toNat ∧ LzxHdrOk f p := by
+  intro fuel
+  induction fuel with
+  | zero => intro pos mg _ h; simp [lzxLoop] at h
+  | succ n ih =>
+    intro pos mg hs h
+    unfold lzxLoop at h
+    simp only [] at h
+    split at h
+    · simp at h
+    split at h
+    · simp at h
+    have hsel := selOk_check f env.limit mg (lzxEntryBad env f pos) pos (le32 f (pos + 6)) (u8 f (pos + 11))
+      (u8 f (pos + 12)) hs (by
+        intro hb
+        unfold lzxEntryBad at hb
+        simp only [Bool.or_eq_false_iff, bne_eq_false_iff_eq] at hb
+        exact hb.1.1.1.1.1)
+    split at h
+    · exact gate_lzxExtract env f out _ _ _ _ hsel h
+    · exact ih _ _ hsel h
+
+theorem gate_lzx (env : LzxEnv) (f out : Bytes) (h : lzxDepack env f = some out) :
+    ∃ pos, le32 f (pos + 22) = (crc32A out 0).toNat ∧
+      le32 f (pos + 26) = lzxHeaderCrc (slice f pos 31) (slice f (pos + 31) (u8 f (pos + 30)))
+        (slice f (pos + 31 + u8 f (pos + 30)) (u8 f (pos + 14))) := by
+  unfold lzxDepack at h
+  split at h
+  · simp at h
+  split at h
+  · simp at h
+  exact gate_lzxLoop env f out _ _ _ (selOk_empty f) h
+
 
 end Xmp.Gates
